@@ -495,6 +495,17 @@ class Fates:
 
     @staticmethod
     def adversarial_then_fair(
+        adversarial: Fate,
+        fair_after_time: Optional[float] = None,
+        after_n: Optional[int] = None,
+        clock: Optional[Clock] = None,
+        fair: Optional[Fate] = None,
+    ) -> Fate:
+        """See :func:`adversarial_then_fair`."""
+        return adversarial_then_fair(adversarial, fair_after_time, after_n, clock, fair)
+
+
+def adversarial_then_fair(
     adversarial: Fate,
     fair_after_time: Optional[float] = None,
     after_n: Optional[int] = None,
